@@ -618,7 +618,7 @@ DataView dataSlice(const DataArray &array, const std::vector<double> &start, con
         std::vector<optional<std::pair<ndsize_t, ndsize_t>>> indices = positionToIndex({my_start[i]}, {my_end[i]}, {my_units[i]}, dim_match, dim);
         if (!indices[0]) {
             optional<ndsize_t> ofst = positionToIndex(my_start[i], my_units[i], PositionMatch::GreaterOrEqual, dim);
-            if (my_end[i] - my_start[i] > std::numeric_limits<double>::epsilon() || !ofst) {
+            if (my_end[i] != my_start[i] || !ofst) {
                 throw nix::OutOfBounds("util::offsetAndCount:An invalid range was encountered!");
             }
             offset[i] = *ofst;
